@@ -71,6 +71,12 @@ fn judge<W: Copy + Ord + Debug>(
         per == per_ref,
         "periphery() = {per:?}, vertices whose eccentricity equals the diameter are {per_ref:?}; eccentricities {ecc_ref:?}"
     );
+    // the two iterators under every way of consuming them
+    if order <= 24 {
+        crate::props::c02::protocol("eccentricities()", || m.eccentricities().copied(), &ecc_ref)?;
+        crate::props::c02::protocol("eccentricities() (by reference)", || m.eccentricities(), &ecc_ref.iter().collect::<Vec<&W>>())?;
+        crate::props::c02::protocol("periphery()", || m.periphery(), &per_ref)?;
+    }
     let conn_ref = ecc_ref.iter().all(|e| *e != inf);
     ensure!(
         m.is_connected() == conn_ref,
@@ -178,7 +184,7 @@ impl Prop for C18 {
     type Case = Case;
     const ID: &'static str = "C18";
     const NUM: u64 = 18;
-    const RULE: &'static str = "matrices of order 1..8 (one in 13 of order 9, 16, 33, 64, 65 or 130, and one case in 12 of order 33..140 whose rows have their maximum at a single column — often one of the last — with eccentricities tied across rows) written cell by cell through IndexMut<(usize, usize)> into DistanceMatrix::new(order, infinity) for W in {isize, usize}, infinity = W::MAX or a small value, entries from a 4-value palette plus infinity (ties, all-infinite rows, all-infinite matrices, asymmetric rows), isize entries also negative; plus matrices returned by FloydWarshall on generated digraphs; enum leg: every 2x2 and 3x3... (order<=2 fully, order 3 over a 3-symbol alphabet) matrix. Non-trivial = at least two vertices tie for the minimum or the maximum eccentricity, or every eccentricity is infinite; distinct = distinct serialised case.";
+    const RULE: &'static str = "matrices of order 1..8 (one in 13 of order 9, 16, 33, 64, 65 or 130, and one case in 12 of order 33..140 whose rows have their maximum at a single column — often one of the last — with eccentricities tied across rows) written cell by cell through IndexMut<(usize, usize)> into DistanceMatrix::new(order, infinity) for W in {isize, usize}, infinity = W::MAX or a small value, entries from a 4-value palette plus infinity (ties, all-infinite rows, all-infinite matrices, asymmetric rows), isize entries also negative; plus matrices returned by FloydWarshall on generated digraphs; enum leg: every 2x2 and 3x3... (order<=2 fully, order 3 over a 3-symbol alphabet) matrix. Up to order 24 the iterators returned by eccentricities() and periphery() are driven through the consumption protocol of C02 (every provided Iterator method after a partial next(), counts past the end, polling after None). Non-trivial = at least two vertices tie for the minimum or the maximum eccentricity, or every eccentricity is infinite; distinct = distinct serialised case.";
     const ASSUMPTIONS: &'static [&'static str] = &["entries never exceed the matrix's infinity value, as the property requires"];
 
     fn legs(tier: Tier) -> Vec<Leg> {
